@@ -280,6 +280,9 @@ class Interp:
             raise Unsupported("truthiness of untracked string")
         if isinstance(v, SymSeq):
             return v.n > 0
+        if isinstance(v, UTerm):
+            import hashlib
+            return z3.Bool("truthy!" + hashlib.sha256(repr(v.key()).encode()).hexdigest()[:12])
         if isinstance(v, TStr):
             if any(isinstance(a, (str, tstr.Digits)) for a in v.atoms):
                 return True
@@ -368,6 +371,11 @@ class Interp:
         if isinstance(a, UTerm) or isinstance(b, UTerm):
             if isinstance(a, UTerm) and a.same(b):
                 return True
+            t, o = (a, b) if isinstance(a, UTerm) else (b, a)
+            if isinstance(o, (str, int, bool)) or o is None:
+                # comparison of abstract text with a constant: an uninterpreted test
+                import hashlib
+                return z3.Bool("eqtest!" + hashlib.sha256(repr((t.key(), repr(o))).encode()).hexdigest()[:12])
             raise Unsupported("== on abstract text")
         if isinstance(a, TStr) or isinstance(b, TStr):
             t, o = (a, b) if isinstance(a, TStr) else (b, a)
@@ -1171,6 +1179,10 @@ class Interp:
                         return v[i]
                 raise Abort()
             raise PyRaise("TypeError", "indices must be integers")
+        if isinstance(v, UTerm) and v.sort in ("str", "any", "list"):
+            if isinstance(idx, slice):
+                return UTerm("slice", [v, idx.start, idx.stop, idx.step], v.sort)
+            return UTerm("index", [v, idx], "any")
         if isinstance(v, TStr):
             if isinstance(idx, slice):
                 return tstr.slice_(v, idx)
